@@ -165,11 +165,18 @@ def run_case(w, prog, db, dbname, dialect, src=None, want_rq=True, user_names=No
         named = [n for n in exp if n is not None]
         missing = [n for n in set(named) if act.count(n) < named.count(n)]
         positional_ok = all(n is None or n == a for n, a in zip(exp, act))
+        if m.colorder_unspec and positional_ok and (None in exp) and len(exp) > 1:
+            # unnamed model columns cannot be matched when the column order itself is open
+            positional_ok = False
         if missing:
             lost = [a for a in act if GENERATED.match(a) and a not in user]
             o.symptoms.append(("C05", "name_lost_to_generated" if lost else "name_missing",
                                "frame %r result %r" % (exp, act)))
-            # positional comparison of values is still meaningful when only names differ
+            # positional comparison of values is still meaningful when only names differ,
+            # but not when the column order itself is open
+            if m.colorder_unspec:
+                o.status = "unalignable"
+                aligned = False
         elif not positional_ok:
             if m.colorder_unspec or has_wild:
                 if None not in exp and len(set(exp)) == len(exp) and len(set(act)) == len(act):
@@ -495,18 +502,22 @@ def explore_shard(prop, seed, shard, n_cases, profile, dialects=("sqlite", "gene
                         shape = reduced_cache[coarse]
                         viols.append({"property": p, "symptom": sym, "shape": dialect + " :: " + shape, "witness": None, "detail": det, "dup": True})
                         continue
+                    fw2 = o.obs.get("frame_wildcard", False)
                     if n_reduced < reduce_budget:
                         n_reduced += 1
                         rp, rdb = reduce_case(w, prog, db, dialect, p, sym)
                         w.db_open("rdx", grel.db_stmts(rdb))
                         o2 = run_case(w, rp, rdb, "rdx", dialect)
                         w.db_close("rdx")
+                        fw2 = o2.obs.get("frame_wildcard", fw2)
                         for (p2, s2, d2) in o2.symptoms:
                             if p2 == p and s2 == sym:
                                 det = d2 + " || sql: " + (o2.sql or "")[:400]
                     else:
                         rp, rdb = prog, db
                     shape = shape_of(rp)
+                    if p == "C05":
+                        shape = ("[W] " if fw2 else "[K] ") + shape
                     reduced_cache[coarse] = shape
                     viols.append({"property": p, "symptom": sym, "shape": dialect + " :: " + shape,
                                   "witness": {"prog": rp, "db": rdb, "dialect": dialect, "prql": grel.pp_program(rp)},
@@ -537,7 +548,7 @@ def replay_case(case, props):
     out = []
     for (p, sym, det) in o.symptoms:
         if p in props:
-            out.append({"property": p, "symptom": sym, "shape": case["dialect"] + " :: " + shape_of(case["prog"]),
+            out.append({"property": p, "symptom": sym, "shape": case["dialect"] + " :: " + (("[W] " if o.obs.get("frame_wildcard") else "[K] ") if p == "C05" else "") + shape_of(case["prog"]),
                         "witness": case, "detail": det})
     return out
 
